@@ -9,6 +9,7 @@ import (
 	"path/filepath"
 	"runtime"
 	"runtime/debug"
+	"strconv"
 	"sync"
 	"sync/atomic"
 	"testing"
@@ -18,6 +19,7 @@ import (
 	"github.com/pkg/errors"
 	"github.com/prometheus/prometheus/tsdb/index"
 	"github.com/thanos-io/objstore"
+	"golang.org/x/sys/unix"
 
 	"github.com/thanos-io/thanos/pkg/block/indexheader"
 	"github.com/thanos-io/thanos/pkg/verifhook"
@@ -42,14 +44,16 @@ const c16Stall = 30 * time.Second
 // slowLogger widens every window in which the code under test logs (a logger may block: a full
 // stderr pipe, a slow sink): each Log call yields or sleeps for a seeded few hundred microseconds.
 type slowLogger struct {
-	mu  sync.Mutex
-	rnd *rand.Rand
+	mu    sync.Mutex
+	rnd   *rand.Rand
+	minUS int // > 0: every call sleeps at least this long (storm scenarios: lock holders outlast
+	// sync.Mutex's 1 ms starvation threshold, so that lock hand-offs to waiting writers happen)
 }
 
 func (l *slowLogger) Log(...interface{}) error {
 	l.mu.Lock()
-	d := time.Duration(l.rnd.Intn(400)) * time.Microsecond
-	y := l.rnd.Intn(3) == 0
+	d := time.Duration(l.minUS+l.rnd.Intn(400+l.minUS)) * time.Microsecond
+	y := l.minUS == 0 && l.rnd.Intn(3) == 0
 	l.mu.Unlock()
 	if y {
 		runtime.Gosched()
@@ -180,6 +184,32 @@ func c16KF(c vt.Case) string {
 	return ""
 }
 
+// pinAllThreads pins every thread of the process to one cpu and returns the function that undoes it.
+func pinAllThreads() func() {
+	var old unix.CPUSet
+	if err := unix.SchedGetaffinity(0, &old); err != nil || old.Count() < 2 {
+		return func() {}
+	}
+	var one unix.CPUSet
+	for i := 0; i < 1024; i++ {
+		if old.IsSet(i) {
+			one.Set(i)
+			break
+		}
+	}
+	set := func(cs *unix.CPUSet) {
+		ents, _ := os.ReadDir("/proc/self/task")
+		for _, e := range ents {
+			if tid, err := strconv.Atoi(e.Name()); err == nil {
+				unix.SchedSetaffinity(tid, cs)
+			}
+		}
+		unix.SchedSetaffinity(0, cs)
+	}
+	set(&one)
+	return func() { set(&old) }
+}
+
 func TestC16(t *testing.T) {
 	tr := vt.Open(t)
 	defer tr.Close()
@@ -276,6 +306,9 @@ func TestC16(t *testing.T) {
 		var lg log.Logger = log.NewNopLogger()
 		if vt.Bool(c["slowlog"]) {
 			lg = &slowLogger{rnd: rand.New(rand.NewSource(vt.Int64(c["sseed"]) + 7))}
+			if vt.Int(c["storm"]) > 0 {
+				lg.(*slowLogger).minUS = 1200
+			}
 		}
 		rd, err := pool.NewBinaryReader(ctx, lg, bkt, hdrDir, w.id, sampling, nil)
 		if err != nil {
@@ -285,6 +318,75 @@ func TestC16(t *testing.T) {
 		tr.Emit(vt.Event{"ev": "case", "case": caseID, "in": c, "kf": c16KF(c)})
 		cur.Store(lr)
 
+		if rounds := vt.Int(c["storm"]); rounds > 0 {
+			// Storm: in every round the header is unloaded, then all readers start one lookup at the same
+			// moment (one of them loads, the others wait for the write lock and find the reader set) while
+			// `closes` goroutines call Close (unconditional unload) in a tight loop.
+			stall := false
+			for round := 0; round < rounds && !stall; round++ {
+				lr.Close()
+				start := make(chan struct{})
+				var stopFlag atomic.Bool
+				var rwg, cwg sync.WaitGroup
+				for p := 0; p < readers; p++ {
+					rwg.Add(1)
+					go func(p int) {
+						defer rwg.Done()
+						debug.SetPanicOnFault(true)
+						<-start
+						for i := 0; i < calls; i++ {
+							call := c16Calls[(p+round+i)%ncalls]
+							arg := p*7 + round + i
+							kind, got := c16Call(lr, call, arg)
+							_, ref := c16Call(eager, call, arg)
+							if kind != "ok" {
+								tr.Emit(vt.Event{"ev": "Result", "case": caseID, "call": call, "arg": arg, "kind": kind, "got": []string{}, "ref": ref, "msg": got})
+							} else {
+								tr.Emit(vt.Event{"ev": "Result", "case": caseID, "call": call, "arg": arg, "kind": kind, "got": got, "ref": ref, "msg": []string{}})
+							}
+						}
+					}(p)
+				}
+				for k := 0; k < closes; k++ {
+					cwg.Add(1)
+					go func(k int) {
+						defer cwg.Done()
+						<-start
+						sp := rand.New(rand.NewSource(int64(round*100 + k)))
+						for !stopFlag.Load() {
+							if k%2 == 1 {
+								// sporadic closer: arrives at random moments, i.e. also while lookups that waited for
+								// a loader pass the write lock one after the other, and barges in between them
+								time.Sleep(time.Duration(50+sp.Intn(450)) * time.Microsecond)
+							}
+							// no yield: re-locking right after the Unlock barges in front of the woken waiter, which
+							// (having waited > 1 ms) puts the mutex into starvation mode: from then on every Unlock
+							// hands the lock to the next waiter and yields, also inside load()'s Unlock -> RLock gap
+							lr.Close()
+						}
+					}(k)
+				}
+				close(start)
+				done := make(chan struct{})
+				go func() { rwg.Wait(); close(done) }()
+				select {
+				case <-done:
+				case <-time.After(c16Stall):
+					stall = true
+				}
+				stopFlag.Store(true)
+				if !stall {
+					cwg.Wait()
+				}
+			}
+			pool.Close()
+			if !stall {
+				lr.Close()
+			}
+			cur.Store(nil)
+			tr.Emit(vt.Event{"ev": "End", "case": caseID, "stall": stall})
+			return
+		}
 		var wg sync.WaitGroup
 		seeds := make([]int64, readers+1)
 		for i := range seeds {
@@ -387,7 +489,7 @@ func TestC16(t *testing.T) {
 			if vt.Bool(tc["closer"]) {
 				closes = 1 + rnd.Intn(3)
 			}
-			run(vt.Case{"src": "tlc", "readers": vt.Int(tc["readers"]), "calls": vt.Int(tc["calls"]), "idle_us": idle, "closes": closes, "aliasing": rep%3 == 2, "fast": false, "lazydl": rep%2 == 1, "dlfail": 0, "slowlog": rep%2 == 0, "sseed": rnd.Int63n(1 << 40)})
+			run(vt.Case{"src": "tlc", "readers": vt.Int(tc["readers"]), "calls": vt.Int(tc["calls"]), "idle_us": idle, "closes": closes, "aliasing": rep%3 == 2, "fast": false, "lazydl": rep%2 == 1, "dlfail": 0, "slowlog": rep%2 == 0, "storm": 0, "sseed": rnd.Int63n(1 << 40)})
 		}
 	}
 	n := vt.Pick(60, 300)
@@ -403,6 +505,21 @@ func TestC16(t *testing.T) {
 		}
 		run(vt.Case{"src": "rand", "readers": readers, "calls": calls,
 			"idle_us": []int{100, 300, 1000, 3000}[rnd.Intn(4)], "closes": closes, "aliasing": i%3 == 2, "fast": fast,
-			"lazydl": i%5 >= 3, "dlfail": []int{0, 0, 1, 3}[rnd.Intn(4)], "slowlog": i%2 == 1, "sseed": rnd.Int63n(1 << 40)})
+			"lazydl": i%5 >= 3, "dlfail": []int{0, 0, 1, 3}[rnd.Intn(4)], "slowlog": i%2 == 1, "storm": 0, "sseed": rnd.Int63n(1 << 40)})
+	}
+	// storms: simultaneous lookups on an unloaded header against tight-loop Close.  All threads of the
+	// process are pinned to ONE cpu while GOMAXPROCS stays high: a goroutine that wakes a blocked
+	// writer (Unlock -> futex wake of another thread) is then regularly preempted by the kernel right
+	// there, in favour of the woken thread, i.e. inside the few instructions between the Unlock and the
+	// following RLock of load() -- windows that are otherwise only nanoseconds wide.
+	prevProcs := runtime.GOMAXPROCS(16)
+	defer runtime.GOMAXPROCS(prevProcs)
+	for i, ns := 0, vt.Pick(4, 20); i < ns; i++ {
+		if i == 0 {
+			restore := pinAllThreads() // measured: many readers + pinning give the most hand-offs inside the gap
+			defer restore()
+		}
+		run(vt.Case{"src": "storm", "readers": 8 + rnd.Intn(5), "calls": 8, "idle_us": 1000000, "closes": 6 + rnd.Intn(3),
+			"aliasing": false, "fast": true, "lazydl": false, "dlfail": 0, "slowlog": true, "storm": vt.Pick(8, 12), "sseed": rnd.Int63n(1 << 40)})
 	}
 }
